@@ -5,9 +5,9 @@ from driver import Job
 _only = os.environ.get("VERIF_C14_ONLY", "")
 _jobs = [
     # sequential part: generated operation sequences on a real replica's TxPool, invariants after every operation
-    Job("seq", "verifsim", "^TestVerifC14Seq$", shards=(6, 12), timeout=(900, 3600)),
+    Job("seq", "verifsim", "^TestVerifC14Seq$", shards=(6, 12), timeout=(900, 7200)),
     # concurrent part (E4): node-shaped goroutine topology under the race detector
-    Job("conc", "verifsim", "^TestVerifC14Conc$", race=True, shards=(8, 12), timeout=(900, 3600)),
+    Job("conc", "verifsim", "^TestVerifC14Conc$", race=True, shards=(8, 12), timeout=(900, 7200)),
 ]
 if _only:
     _jobs = [j for j in _jobs if j.name in _only.split(",")]
